@@ -1,4 +1,5 @@
 import NasVerif.Model.UePolicy
+import NasVerif.Model.UePolicyApi
 import NasVerif.Driver.QosOps
 /-! line-protocol ops `upc …` for the UE policy container model (C18).
 sublists `len:plmnhex:mcc:mnc:instrs|…`, instrs `-` or `len/upsc/parts+…`, parts `-` or `len.typ.hex,…`;
@@ -79,8 +80,76 @@ def parseMsgS (s : String) : Option Msg :=
   | ["other"] => some .other
   | _ => none
 
+/-! descriptions for the API scripts (`upc apil|apir|apim`): sublists `len:mcc:mnc:instrs|…`, instrs `len/upsc/parts+…`,
+parts `len.bycontent.typ.hex,…`; sub-results `len:mcc:mnc:results|…`, results `upsc.order,…` -/
+def parsePartsD (s : String) : Option (List PartD) :=
+  (splitList s ",").mapM fun e =>
+    match e.splitOn "." with
+    | [l, bc, t, h] => do
+      let l ← l.toNat?; let bc ← bc.toNat?; let t ← t.toNat?; let b ← hexToBytes h
+      pure ⟨UInt16.ofNat l, bc != 0, UInt8.ofNat t, b⟩
+    | _ => none
+
+def parseInstrsD (s : String) : Option (List InstrD) :=
+  (splitList s "+").mapM fun e =>
+    match e.splitOn "/" with
+    | [l, u, ps] => do let l ← l.toNat?; let u ← u.toNat?; let ps ← parsePartsD ps; pure ⟨UInt16.ofNat l, UInt16.ofNat u, ps⟩
+    | _ => none
+
+def parseSubListsD (s : String) : Option (List SubListD) :=
+  (splitList s "|").mapM fun e =>
+    match e.splitOn ":" with
+    | [l, mcc, mnc, is] => do
+      let l ← l.toNat?; let mcc ← mcc.toNat?; let mnc ← mnc.toNat?; let is ← parseInstrsD is
+      pure ⟨UInt16.ofNat l, mcc, mnc, is⟩
+    | _ => none
+
+def parseSubResultsD (s : String) : Option (List SubResultD) :=
+  (splitList s "|").mapM fun e =>
+    match e.splitOn ":" with
+    | [l, mcc, mnc, rs] => do
+      let l ← l.toNat?; let mcc ← mcc.toNat?; let mnc ← mnc.toNat?
+      let rs ← (splitList rs ",").mapM fun r =>
+        match r.splitOn "." with
+        | [u, o] => do let u ← u.toNat?; let o ← o.toNat?; pure (UInt16.ofNat u, UInt16.ofNat o)
+        | _ => none
+      pure ⟨UInt16.ofNat l, mcc, mnc, rs⟩
+    | _ => none
+
+def showDec {α} (o : Outcome α) (f : α → String) : String :=
+  match o with
+  | .ok a => f a
+  | .err _ => "err"
+  | .panic => "panic"
+
 def upcOp (toks : List String) : Option String :=
   match toks with
+  | ["upc", "apil", d] => do
+    let ds ← parseSubListsD d
+    pure (showOut (buildList ds []) fun l =>
+      let b := marshalList l
+      s!"{showList (l.map showSubList) "|"} {hx b} {showDec (unmarshalList b) fun l' => showList (l'.map showSubList) "|"}")
+  | ["upc", "apir", d] => do
+    let ds ← parseSubResultsD d
+    pure (showOut (buildResult ds []) fun l =>
+      let b := marshalResult l
+      s!"{showList (l.map showSubResult) "|"} {hx b} {showDec (unmarshalResult b) fun l' => showList (l'.map showSubResult) "|"}")
+  | ["upc", "apim", "cmd", pti, iei, h, cm] => do
+    let pti ← pti.toNat?; let iei ← iei.toNat?; let b ← hexToBytes h
+    let cm ← (if cm == "-" then some none else
+      match cm.splitOn "." with
+      | [a, n] => do let a ← a.toNat?; let n ← n.toNat?; pure (some (UInt8.ofNat a, UInt8.ofNat n))
+      | _ => none)
+    pure (showOut (buildCommand (UInt8.ofNat pti) (UInt8.ofNat iei) b cm) fun (h1, m) =>
+      showDec (encodeMsg h1 m) fun e => s!"{hx e} {showDec (decodeMsg e) fun (h0, h1, m') => s!"{h0.toNat} {h1.toNat} {showMsg m'}"}")
+  | ["upc", "apim", "rej", pti, iei, h] => do
+    let pti ← pti.toNat?; let iei ← iei.toNat?; let b ← hexToBytes h
+    let (h1, m) := buildReject (UInt8.ofNat pti) (UInt8.ofNat iei) b
+    pure ("ok " ++ showDec (encodeMsg h1 m) fun e => s!"{hx e} {showDec (decodeMsg e) fun (h0, h1, m') => s!"{h0.toNat} {h1.toNat} {showMsg m'}"}")
+  | ["upc", "apim", "cpl", pti] => do
+    let pti ← pti.toNat?
+    let (h1, m) := buildComplete (UInt8.ofNat pti)
+    pure ("ok " ++ showDec (encodeMsg h1 m) fun e => s!"{hx e} {showDec (decodeMsg e) fun (h0, h1, m') => s!"{h0.toNat} {h1.toNat} {showMsg m'}"}")
   | ["upc", "dec", h] => do
     let b ← hexToBytes h
     pure (showOut (decodeMsg b) fun (h0, h1, m) => s!"{h0.toNat} {h1.toNat} {showMsg m}")
